@@ -177,10 +177,22 @@ class FileProxy:
     def readlines(self, *a):
         return self._op("read", lambda: self._f.readlines(*a), _data_summary)
 
+    def _staged(self):
+        """A staged file (<area>/tmp/...): its buffering is left as the code set it up, so that
+        data the code has not flushed or closed yet is NOT on disk when the file is renamed
+        into place or the process dies.  Files written in place at permanent paths are flushed
+        after every write, so that every stage of an in-place rewrite is observable."""
+        p = self._path
+        if p is None:
+            p = str(getattr(self._f, "name", ""))
+        parts = str(p).replace("\\", "/").split("/")
+        return "tmp" in parts[-3:-1]
+
     def write(self, data):
         def do():
             r = self._f.write(data)
-            self._f.flush()
+            if not self._staged():
+                self._f.flush()
             return r
         return self._op("write", do, lambda r: "n%d" % len(data))
 
@@ -189,7 +201,8 @@ class FileProxy:
 
         def do():
             self._f.writelines(lines)
-            self._f.flush()
+            if not self._staged():
+                self._f.flush()
         return self._op("write", do, lambda r: "l%d" % len(lines))
 
     def truncate(self, *a):
